@@ -82,6 +82,7 @@ type Minter struct {
 	Height       uint64
 	Blocks       []MBlock // Blocks[i].Height == i+1 up to Height
 	pending      []MTx
+	Received     map[string]map[uint64]*big.Int // what the multisig has paid out, per recipient (lower-case Mx…) and coin
 	txCounter    uint64
 
 	// bookkeeping for the simulation (the "true" numbering every honest connector computes)
@@ -255,6 +256,19 @@ func (m *Minter) SubmitMultisig(tx MTx, sigs [][]byte) error {
 			}
 			for c, n := range need {
 				m.bal(c).Sub(m.bal(c), n)
+			}
+			for _, it := range tx.Items {
+				k := strings.ToLower(it.To)
+				if m.Received == nil {
+					m.Received = map[string]map[uint64]*big.Int{}
+				}
+				if m.Received[k] == nil {
+					m.Received[k] = map[uint64]*big.Int{}
+				}
+				if m.Received[k][it.Coin] == nil {
+					m.Received[k][it.Coin] = new(big.Int)
+				}
+				m.Received[k][it.Coin].Add(m.Received[k][it.Coin], it.Value)
 			}
 		case MTypeEditMultisig:
 			if len(tx.Addresses) != len(tx.Weights) || len(tx.Addresses) == 0 || len(tx.Addresses) > 32 {
